@@ -72,6 +72,8 @@ def monitor(case, tr, raw):
                 if val == 1 and not first and f in ctx and ctx[f][0] == 'live' and ctx[f][1] != t:
                     return "fiber %d marked RUNNING by thread %d while it is executing on thread %d" % (f, t, ctx[f][1])
             continue
+        if kind == 909 and 1000 <= loc < 1100 and val == 80:
+            return "fiber %d: two readers blocked on one descriptor did not each receive their byte" % (loc - 1000)
         if kind == 909 and 1000 <= loc < 1100 and val == 79:
             return ("fiber %d: a fiber_join racing with a fiber_detach of the same target returned neither the result nor "
                     "FIBER_ERROR" % (loc - 1000))
@@ -219,7 +221,7 @@ def gen_cases(ctx, tier):
         for _f in range(nf):
             p = []
             for _ in range(rng.randint(1, 6)):
-                opc = rng.choice([1, 1, 2, 3, 2, 3, 4, 5, 6, 7, 8, 9, 9, 9, 10, 10, 11, 12, 13, 13, 14, 14, 15, 15, 16, 17, 17, 18, 18, 18, 19, 19, 20, 20, 21, 21, 22, 23, 23])
+                opc = rng.choice([1, 1, 2, 3, 2, 3, 4, 5, 6, 7, 8, 9, 9, 9, 10, 10, 11, 12, 13, 13, 14, 14, 15, 15, 16, 17, 17, 18, 18, 18, 19, 19, 20, 20, 21, 21, 22, 23, 23, 26, 26])
                 p.append((opc, rng.randint(0, 1)))
             progs.append(p)
         length = rng.randint(50, 2500)
@@ -238,6 +240,13 @@ def gen_cases(ctx, tier):
         progs = [[(10, rng.randint(0, 1))] * rng.randint(1, 4) for _f in range(rng.randint(1, 3))]
         cases.append(core.fmt_case([60000, nk], progs,
                                    core.random_sched(rng, nk, rng.randint(30, 1500), rng.choice([0, 1, 2, 3, 3, 3]))))
+    # several fibers blocked on ONE descriptor while the poller handles its readiness (fd waits under work stealing)
+    for _ in range(2 * n):
+        nk = rng.choice([2, 2, 3, 4])
+        progs = [[(rng.choice([26, 26, 26, 12, 1]), rng.randint(0, 1)) for _ in range(rng.randint(1, 3))]
+                 for _f in range(rng.randint(1, 3))]
+        cases.append(core.fmt_case([60000, nk], progs,
+                                   core.random_sched(rng, nk, rng.randint(30, 2500), rng.choice([0, 1, 2, 3, 3, 3]))))
     # the main fiber's first blocking call is a sleep; the other fibers sleep and yield
     ns = n // 2
     for _ in range(ns):
@@ -247,7 +256,7 @@ def gen_cases(ctx, tier):
         cases.append(core.fmt_case([60000, nk, rng.choice([1, 2])], progs,
                                    core.random_sched(rng, nk, rng.randint(30, 1500), rng.randrange(3))))
     ctx.coverage["case_distribution"] = {"random_programs": n, "join_heavy_programs": nj, "create_join_only": 2 * n,
-                                         "main_sleeps_first": ns}
+                                         "main_sleeps_first": ns, "shared_descriptor_waits": 2 * n}
     return cases
 
 
